@@ -26,6 +26,8 @@ impl Number {
         fn negated(x: &str) -> String {
             match x.strip_prefix('-') {
                 Some(magnitude) => magnitude.to_owned(),
+                // an integer has one zero: `-0` is `0`, also where an unsigned amount is wanted (`1 << -0`)
+                None if x.trim_start_matches('0').is_empty() => x.to_owned(),
                 None => "-".to_owned() + x,
             }
         }
@@ -45,7 +47,10 @@ impl Number {
             // `-2147483648` is the one negation of a bigint that spells an int
             BigInt(x) if x == "2147483648" => Integer(negated(x)),
             BigInt(x) => BigInt(negated(x)),
-            Float(x) => Float(negated(x)),
+            Float(x) => Float(match x.strip_prefix('-') {
+                Some(magnitude) => magnitude.to_owned(),
+                None => "-".to_owned() + x,
+            }),
             Byte(_) => return None,
         })
     }
